@@ -326,13 +326,34 @@ func c05fromItems(rng *sx.Rng, n int) {
 					bad = fmt.Sprintf("panic: %v", r)
 				}
 			}()
+			given := append([]ordered.TupleSS{}, items...)
 			m := ordered.MapFromItems(items...)
+			// a second map from the same pair list is an independent map, and the list stays the caller's: neither
+			// sees what happens to the other from here on
+			twin := ordered.MapFromItems(items...)
+			twinRef := append(plist{}, ref...)
 			bad = c05oracle(m, ref, append([]string{"zz"}, keys...), true, true)
 			for k := rng.Intn(4); k > 0 && bad == ""; k-- {
 				o := c05op{kind: sx.Pick(rng, []string{"s", "r", "d"}), a: sx.Pick(rng, keys), b: sx.Pick(rng, keys), v: "w"}
 				ref = c05apply(m, ref, o)
 				desc = append(desc, o.sexp())
 				bad = c05oracle(m, ref, append([]string{"zz"}, keys...), true, true)
+				if bad == "" {
+					if b2 := c05oracle(twin, twinRef, append([]string{"zz"}, keys...), true, false); b2 != "" {
+						bad = "a second map built from the same pair list changed when the first was edited: " + b2
+					}
+				}
+			}
+			if bad == "" && fmt.Sprint(given) != fmt.Sprint(items) {
+				bad = fmt.Sprintf("the caller's pair list was modified: %v -> %v", given, items)
+			}
+			if bad == "" {
+				for j := range items {
+					items[j] = ordered.TupleSS{Key: "overwritten", Value: "by the caller"}
+				}
+				if b2 := c05oracle(m, ref, append([]string{"zz", "overwritten"}, keys...), true, false); b2 != "" {
+					bad = "the map changed when the caller reused its pair list: " + b2
+				}
 			}
 		}()
 		if bad != "" {
